@@ -21,6 +21,8 @@ pub enum SA {
     E,
     #[regex("ab\\.\\.")]
     Dots,
+    #[token("BEGIN")]
+    Begin,
 }
 
 #[derive(Logos, Debug, Clone, PartialEq)]
@@ -379,11 +381,65 @@ explorer!(strs, SA, SB, str, to_str, str_boundary, str_bytes, "zz 9 é and a lon
 explorer!(bins, BA, BB, [u8], ident, bin_boundary, ident, b"zz 9 \xff and a longer tail");
 explorer!(looks, SC, SD, str, to_str, str_boundary, str_bytes, "let end\nzz and a longer tail");
 
+#[derive(Logos, Debug, Clone, PartialEq)]
+#[logos(extras = std::rc::Rc<u8>)]
+pub enum RcTok {
+    #[regex("[a-z]+")]
+    W,
+    #[token(" ")]
+    S,
+}
+
+/// extras that own something: every clone (of the lexer, of the spanned iterator) holds its own
+/// reference, taken without touching the original's
+fn owned_extras(rep: &mut Report) {
+    use std::rc::Rc;
+    for source in ["", "ab cd", "ab cd ef"] {
+        for steps in 0..4 {
+            for partial in [false, true] {
+                crate::tick(|| format!("owned extras, source {source:?}, {steps} steps"));
+                let rc = Rc::new(7u8);
+                let mut lex: Lexer<RcTok> = if partial { Lexer::partial_with_extras(source, rc.clone()) } else { Lexer::with_extras(source, rc.clone()) };
+                for _ in 0..steps {
+                    lex.next();
+                }
+                let c1 = lex.clone();
+                let n1 = Rc::strong_count(&rc);
+                let c2 = c1.clone();
+                let n2 = Rc::strong_count(&rc);
+                let sp = lex.clone().spanned();
+                let sp2 = sp.clone();
+                let n3 = Rc::strong_count(&rc);
+                rep.count("transitions", 3);
+                if (n1, n2, n3) != (3, 4, 6) {
+                    if rep.violations.len() < 10 {
+                        rep.violations.push(Violation {
+                            key: format!("CLONE/owned-extras/{source}/{steps}/{partial}"),
+                            tag: "CLONE".into(),
+                            case: format!("extras = Rc<u8>, source {source:?}, {steps} x next(), partial={partial}"),
+                            detail: format!("reference counts after lexer.clone(), clone.clone(), spanned().clone(): {n1}, {n2}, {n3} (expected 3, 4, 6): a clone released or shares the original's extras"),
+                            replay: serde_json::json!({"kind": "vderive", "prop": "C14", "tag": "CLONE"}),
+                        });
+                    }
+                    // the counts are wrong: dropping these values could free the extras twice
+                    std::mem::forget((lex, c1, c2, sp, sp2));
+                    continue;
+                }
+                drop((c1, c2, sp, sp2));
+                if Rc::strong_count(&rc) != 2 || *lex.extras != 7 {
+                    rep.violations.push(Violation { key: format!("CLONE/owned-extras-drop/{source}/{steps}"), tag: "CLONE".into(), case: format!("extras = Rc<u8>, source {source:?}"), detail: "dropping the clones changed the original's extras".into(), replay: serde_json::json!({"kind": "vderive", "prop": "C14", "tag": "CLONE"}) });
+                    std::mem::forget(lex);
+                }
+            }
+        }
+    }
+}
+
 pub fn run(tier: &str, rep: &mut Report) {
     std::panic::set_hook(Box::new(|_| {}));
     let depth = if tier == "thorough" { 7 } else { 5 };
     rep.bounds.insert("histories".into(), format!("all sequences of {{next, bump(1) when legal, clone, morph, spanned}} up to depth {depth}, de-duplicated on (definition, token_start, token_end, extras), for 3 definition pairs (str, bytes, str with look-ahead / end-anchored patterns) x {{ordinary, partial}} x both start definitions x 7 sources each"));
-    let str_sources: [&str; 7] = ["", "ab 12", "éa€b", "abc  ", "ab..", "a!b", "ab. x9"];
+    let str_sources: [&str; 8] = ["", "ab 12", "éa€b", "abc  ", "ab..", "a!b", "ab. x9", "BEG 1 BEGI"];
     for s in str_sources {
         strs::explore(s.as_bytes(), depth, rep);
         rep.count("programs", 1);
@@ -398,6 +454,7 @@ pub fn run(tier: &str, rep: &mut Report) {
         bins::explore(s, depth, rep);
         rep.count("programs", 1);
     }
+    owned_extras(rep);
     let t = rep.counts.get("transitions").copied().unwrap_or(0);
     rep.count("traces_validated_against_impl", t);
     rep.samples.push(serde_json::json!({"source": "éa€b", "pair": "SA/SB", "example_history": ["next", "morph", "next", "bump(1)", "clone", "spanned"]}));
